@@ -91,10 +91,6 @@ def notifyMark : Proc → Option Nat
 def NotifyInv (y : Sys) : Prop :=
   ∀ q m, notifyMark (y.procs q) = some m → m ≤ y.st.stores ∧ (y.st.workload.isSome = true → m < y.st.stores)
 
-/-- The cached certificate always has its rotation task in the queue (no ghost state involved). -/
-def HasTaskInv (y : Sys) : Prop :=
-  ∀ w, y.st.workload = some w → ∃ en ∈ y.st.queue, en.created = w.created ∧ en.expire = w.expire
-
 /-- exclusive ownership of generateMutex -/
 def MutexInv (y : Sys) : Prop := ∀ q, holds (y.procs q) = true ↔ y.st.mutex = some q
 
@@ -408,16 +404,106 @@ theorem step_notify {y : Sys} (p : Nat) (i : Input) (h : NotifyInv y) : NotifyIn
     | (simp_all [notifyMark, clearWorkload, notifyWorkload]
        intro hm; have := hq hm; omega))
 
-theorem step_hasTask {y : Sys} (p : Nat) (i : Input) (h : HasTaskInv y) : HasTaskInv (step y p i) := by
-  intro w
-  have hw := h w
+/-- The rotation task `e` is pending: not started yet, or its callback is still before its clear. -/
+def Pending (y : Sys) (e : Nat) (en : Entry) : Prop :=
+  en.fired = false ∨ ∃ p, y.procs p = .tCheck e ∨ y.procs p = .tClear e
+
+/-- Whatever is cached has its rotation task in the queue, and that task is still pending. -/
+def PendingTaskInv (y : Sys) : Prop :=
+  ∀ w, y.st.workload = some w → ∃ e en, y.st.queue[e]? = some en ∧ en.created = w.created ∧
+    en.expire = w.expire ∧ Pending y e en
+
+theorem step_procs_other (y : Sys) (p : Nat) (i : Input) {q : Nat} (h : q ≠ p) : (step y p i).procs q = y.procs q := by
   unfold step
   simp only [finish]
-  split <;> try exact hw
+  split <;> try rfl
   all_goals (repeat' split)
+  all_goals (simp [h])
+
+theorem step_workload_cases (y : Sys) (p : Nat) (i : Input) :
+    ((step y p i).st.workload = y.st.workload ∧ ∀ e, y.procs p ≠ .tClear e) ∨ (step y p i).st.workload = none ∨
+    (∃ res it d c, y.procs p = .gRegStore res it d c ∧ (step y p i).st.workload = some it ∧
+      (step y p i).st.queue = y.st.queue ++ [{ created := it.created, delay := d, pushedAt := i.now,
+                                               expire := it.expire, computedAt := c }]) := by
+  unfold step
+  simp only [finish]
+  split
+  all_goals (repeat' split)
+  all_goals (simp_all [clearWorkload])
+
+theorem step_queue_get (y : Sys) (p : Nat) (i : Input) {e : Nat} {en : Entry} (h : y.st.queue[e]? = some en) :
+    (step y p i).st.queue[e]? = some en := by
+  have hlt : e < y.st.queue.length := by
+    rcases Nat.lt_or_ge e y.st.queue.length with h' | h'
+    · exact h'
+    · rw [List.getElem?_eq_none h'] at h; cases h
+  revert h
+  unfold step
+  simp only [finish]
+  split
+  all_goals (repeat' split)
+  all_goals (intro h; simp_all [clearWorkload, List.getElem?_append_left hlt])
+
+theorem step_tcheck_match {y : Sys} {p e : Nat} {en : Entry} {w : Item} (i : Input) (hp : y.procs p = .tCheck e)
+    (hq : y.st.queue[e]? = some en) (hw : y.st.workload = some w) (hc : en.created = w.created) :
+    (step y p i).procs p = .tClear e := by
+  simp [step, hp, hq, hw, hc]
+
+theorem step_pendingTask {y : Sys} (p : Nat) (i : Input) (h : PendingTaskInv y) : PendingTaskInv (step y p i) := by
+  intro w' hw'
+  rcases step_workload_cases y p i with ⟨hsame, hnc⟩ | hnone | ⟨res, it, d, c, hp, hw, hq⟩
+  · rw [hsame] at hw'
+    obtain ⟨e, en, hq, hc, he, hpend⟩ := h w' hw'
+    refine ⟨e, en, step_queue_get y p i hq, hc, he, ?_⟩
+    rcases hpend with hf | ⟨p0, hp0⟩
+    · exact Or.inl hf
+    · right
+      by_cases hpp : p0 = p
+      · subst hpp
+        rcases hp0 with h1 | h1
+        · exact ⟨p0, Or.inr (step_tcheck_match i h1 hq hw' hc)⟩
+        · exact absurd h1 (hnc e)
+      · exact ⟨p0, by rw [step_procs_other y p i hpp]; exact hp0⟩
+  · rw [hnone] at hw'; cases hw'
+  · rw [hw] at hw'
+    cases hw'
+    refine ⟨y.st.queue.length, { created := w'.created, delay := d, pushedAt := i.now, expire := w'.expire, computedAt := c },
+      ?_, rfl, rfl, Or.inl rfl⟩
+    rw [hq]; simp
+
+
+/-! ### CA roots are never empty -/
+
+def procRootsOk : Proc → Prop
+  | .gRegCheck _ it => it.root ≠ []
+  | .gRegStore _ it _ _ => it.root ≠ []
+  | .gAfterReg _ it => it.root ≠ []
+  | .gMerge roots _ => roots ≠ []
+  | _ => True
+
+/-- The root bytes of every CA response in flight, of the cached item, and the roots a ROOTCA request
+    carries between its two reads, are non-empty. -/
+def RootsInv (y : Sys) : Prop :=
+  (∀ w, y.st.workload = some w → w.root ≠ []) ∧ ∀ q, procRootsOk (y.procs q)
+
+theorem newItem_root_ne (s : State) (now ttl : Int) (sg : Nat) (b : List Nat) : (newItem s now ttl sg b).root ≠ [] := by
+  unfold newItem; simp only; split
+  · simp
+  · rename_i h; intro hb; rw [hb] at h; simp at h
+
+theorem step_roots {y : Sys} (p : Nat) (i : Input) (h : RootsInv y) : RootsInv (step y p i) := by
+  obtain ⟨hw, hpr⟩ := h
+  have hp := hpr p
+  unfold step
+  simp only [finish]
+  split <;> try exact ⟨hw, hpr⟩
+  all_goals (repeat' split)
+  all_goals (refine ⟨?_, fun q => ?_⟩)
+  all_goals (try (have hq := hpr q))
+  all_goals (try (by_cases hqp : q = p))
   all_goals (first
-    | (simp_all [clearWorkload]; done)
-    | (intro hs; simp only [Option.some.injEq] at hs; subst hs
-       exact ⟨_, List.mem_append_right _ (List.mem_singleton.2 rfl), rfl, rfl⟩))
+    | (simp_all [procRootsOk, clearWorkload, newItem_root_ne]; done)
+    | (subst hqp; simp_all [procRootsOk, clearWorkload, newItem_root_ne]; done)
+    | (intro w hw'; simp_all [procRootsOk, clearWorkload, newItem_root_ne]; done))
 
 end IstioModel.C18
